@@ -7,18 +7,18 @@ wt="$1"; name="$2"; shift 2
 out=/verif/seeded/$name
 mkdir -p "$out"
 cd "$wt" || exit 2
-cp mutant/patch.diff "$out/patch.diff"
-for f in mutant/*; do case "$f" in *patch.diff) ;; *) cp -r "$f" "$out/";; esac; done
+cp ${MUTDIR:-mutant}/patch.diff "$out/patch.diff"
+for f in ${MUTDIR:-mutant}/*; do case "$f" in *patch.diff) ;; *) cp -r "$f" "$out/";; esac; done
 echo "== confirm in $wt"
 git diff -- src > /tmp/cur.diff
-if ! diff -q /tmp/cur.diff mutant/patch.diff >/dev/null; then echo "note: worktree diff differs from patch.diff (re-applying patch on clean tree)"; git checkout -- src; git apply mutant/patch.diff || exit 2; fi
+if ! diff -q /tmp/cur.diff ${MUTDIR:-mutant}/patch.diff >/dev/null; then echo "note: worktree diff differs from patch.diff (re-applying patch on clean tree)"; git checkout -- src; git apply ${MUTDIR:-mutant}/patch.diff || exit 2; fi
 tests_with=$(cargo test --features cli --offline 2>&1 | grep -E "^test result" | awk '{p+=$4; f+=$6} END {print p" passed "f" failed"}')
 cargo build --features cli --offline >/dev/null 2>&1
-demo_with=0; if [ -f mutant/demo.sh ]; then (bash mutant/demo.sh >/tmp/demo_with.log 2>&1); demo_with=$?; fi
-git apply -R mutant/patch.diff
+demo_with=0; if [ -f ${MUTDIR:-mutant}/demo.sh ]; then (bash ${MUTDIR:-mutant}/demo.sh >/tmp/demo_with.log 2>&1); demo_with=$?; fi
+git apply -R ${MUTDIR:-mutant}/patch.diff
 cargo build --features cli --offline >/dev/null 2>&1
-demo_without=0; if [ -f mutant/demo.sh ]; then (bash mutant/demo.sh >/tmp/demo_without.log 2>&1); demo_without=$?; fi
-git apply mutant/patch.diff
+demo_without=0; if [ -f ${MUTDIR:-mutant}/demo.sh ]; then (bash ${MUTDIR:-mutant}/demo.sh >/tmp/demo_without.log 2>&1); demo_without=$?; fi
+git apply ${MUTDIR:-mutant}/patch.diff
 echo "tests with change: $tests_with; demo with change exit=$demo_with; demo without change exit=$demo_without"
 echo "== run checks against /repo + patch"
 cd /verif
